@@ -1183,7 +1183,72 @@ impl<'a> Gen<'a> {
         }
     }
 
+    /// value of any type of the grammar (structured values included), None when we decline
+    pub fn value_for(&mut self, t: &Ty, depth: usize) -> Option<Val> {
+        if depth > 3 {
+            return None;
+        }
+        match &t.kind {
+            TyKind::Ref { name, .. } => {
+                if t.constraint.is_some() {
+                    return None;
+                }
+                let (_, rt) = self.env.get(name)?.clone();
+                self.value_for(&rt, depth + 1)
+            }
+            TyKind::Sequence(s) | TyKind::Set(s) => {
+                let mut fields = vec![];
+                for c in &s.root {
+                    let include = match c.opt {
+                        Optionality::Required => true,
+                        _ => self.rng.chance(1, 2),
+                    };
+                    if include {
+                        fields.push((c.name.clone(), self.value_for(&c.ty, depth + 1)?));
+                    }
+                }
+                Some(Val::Seq(fields))
+            }
+            TyKind::Choice(s) => {
+                let c = s.root.first()?;
+                Some(Val::Choice(c.name.clone(), Box::new(self.value_for(&c.ty, depth + 1)?)))
+            }
+            TyKind::SeqOf(e) | TyKind::SetOf(e) => {
+                let (lo, hi) = match &t.constraint {
+                    Some(Constraint::Size { lo, hi, .. }) => (*lo as usize, hi.map(|h| h as usize).unwrap_or(*lo as usize + 2)),
+                    _ => (0, 3),
+                };
+                let n = lo + self.rng.below(hi.min(lo + 3) - lo + 1);
+                let mut v = vec![];
+                for _ in 0..n {
+                    v.push(self.value_for(e, depth + 1)?);
+                }
+                Some(Val::List(v))
+            }
+            TyKind::Null => Some(Val::Null),
+            TyKind::Oid => Some(self.oid_value()),
+            _ => self.default_for(t),
+        }
+    }
+
     fn value_assignment(&mut self) -> Option<Assign> {
+        if self.o.structured_values && self.rng.chance(1, 3) {
+            let cands: Vec<String> = self
+                .planned
+                .iter()
+                .enumerate()
+                .filter(|(i, (m, n))| *i < self.cur && *m == self.cur_module && self.env.get(n).is_some_and(|(_, t)| matches!(t.kind, TyKind::Sequence(_) | TyKind::Set(_) | TyKind::Choice(_) | TyKind::SeqOf(_) | TyKind::SetOf(_))))
+                .map(|(_, (_, n))| n.clone())
+                .collect();
+            if !cands.is_empty() {
+                let ty = Ty::plain(TyKind::Ref { module: None, name: self.rng.pick(&cands).clone() });
+                if let Some(val) = self.value_for(&ty, 0) {
+                    let name = self.id("v");
+                    self.values.insert(name.clone(), (self.cur_module, ty.clone(), val.clone()));
+                    return Some(Assign::Value { name, ty, val });
+                }
+            }
+        }
         // a value of a built-in type or of an already defined simple type
         let ty = if self.rng.chance(1, 3) {
             let cands: Vec<String> = self
